@@ -310,7 +310,8 @@ def mutate(rng, argv, tool, kind=None):
     kind = kind or rng.choice(["drop", "dup", "swap", "number", "number", "unknown",
                        "late_option", "second_cmd", "dangling_T", "badfile",
                        "badfile", "outfile", "format", "help", "dash",
-                       "empty_token", "abbrev", "end_of_options"])
+                       "empty_token", "abbrev", "end_of_options", "save",
+                       "save"])
     n = len(argv)
     if kind == "drop" and n:
         del argv[rng.randrange(n)]
@@ -369,6 +370,13 @@ def mutate(rng, argv, tool, kind=None):
         argv.insert(rng.randrange(n + 1), rng.choice(HELP_FLAGS))
     elif kind == "dash":
         argv.insert(rng.randrange(n + 1), rng.choice(["-", "--", "---"]))
+    elif kind == "save":
+        # the graph of the command line stored somewhere (or nowhere)
+        i = argv.index("-T") if "-T" in argv else n
+        argv[i:i] = ["save"] + rng.choice(
+            [["saved.kthlist"], ["nodir/g.gml"], [""], ["adir"], ["ro.cnf"],
+             ["g.bogus"], ["kthlist", "g.out"], ["gml", "nodir/deeper/g"],
+             ["dot", "adir.kthlist"], []])
     elif kind == "end_of_options":
         # '--': what follows is positional, whatever it looks like
         i = rng.randrange(n + 1)
